@@ -121,6 +121,20 @@ def check_value(acc, spec, how=None):
             why = match(gc, exp)
             if why:
                 acc.failure("C10:slice_content:" + why, case, "got %r expected %r" % (gc, exp))
+    # slices taken from ONE object in a non-monotone order must equal the slices taken above (each compared with the model)
+    ranges = [(a, b) for a in range(0, total + 3) for b in range(a, total + 3)]
+    order = ranges[::-1][::3] + ranges[1::7] + ranges[::5]
+    for a, b in order:
+        try:
+            gc = C.cells(f.width_aware_slice(slice(a, b)))
+        except Exception as ex:  # noqa
+            acc.failure("C10:slice_raises:" + type(ex).__name__, {"f": shown, "op": "width_aware_slice (second pass)", "a": a, "b": b}, repr(ex))
+            break
+        why = match(gc, expected_slice(fc, a, b))
+        acc.transitions += 1
+        if why:
+            acc.failure("C10:slice_depends_on_earlier_slices", {"f": shown, "op": "width_aware_slice in shuffled order on one object", "a": a, "b": b}, "got %r (%s)" % (gc, why))
+            break
     # widths must not depend on history: measure, concatenate, measure again (the operand and both results)
     try:
         for extra, ew in (("q", 1), ("Ｅ", 2), ("̀", 0)):
